@@ -185,11 +185,17 @@ def check_b(ck, repo):
         bp = [p for p in _run_block(bs, l.body, {}) if p.ret is None]
         ok_all = bool(bp)
         seen_remove = set()
+        not_understood: list = []
         for p in bp:
             st = {k: v for k, v in p.named_stores.items()}
             off = st.get(f"{pos_v}[{c_}]")
             rk = st.get(f"{rank_v}[{c_}]")
             ok = isinstance(off, ast.Name) and rk is not None
+            if off is not None and rk is not None and not isinstance(off, ast.Name):
+                # another way of laying the columns out (e.g. offset = len(schema) before it grows):
+                # not the counter form this rule reads
+                not_understood.append(_t(off)[:60])
+                continue
             S = None
             if ok:
                 L = off.id
@@ -213,13 +219,18 @@ def check_b(ck, repo):
                     ok_all = ok_all and S == core
                 else:
                     ok_all = False
-        ck.verdict(ok_all and seen_remove == {True, False}, "C19.b", bs, "offset[c] = names so far; ranks and names from the same (filtered) list; offset += its length", "offset of a column = number of names appended before it; rank = position of the value among that column's names (removed names dropped first); names are column=value in rank order", "the schema no longer keeps the offsets, the per-value ranks and the list of names in step (offsets must advance by exactly the number of names appended, after the removal of names)")
+        if not_understood:
+            ck.unknown("C19.b", bs, f"{pos_v}[{c_}] = {not_understood[0]}", "the offsets are not kept in a counter advanced by the number of names appended: this way of building the schema is not understood (no verdict)")
+            names_v = None
+        else:
+          ck.verdict(ok_all and seen_remove == {True, False}, "C19.b", bs, "offset[c] = names so far; ranks and names from the same (filtered) list; offset += its length", "offset of a column = number of names appended before it; rank = position of the value among that column's names (removed names dropped first); names are column=value in rank order", "the schema no longer keeps the offsets, the per-value ranks and the list of names in step (offsets must advance by exactly the number of names appended, after the removal of names)")
         init = [p for p in _run_block(bs, [s_ for s_ in bs.node.body if s_.lineno < l.lineno], {})]
         offv = None
         for p in bp:
             o = p.named_stores.get(f"{pos_v}[{c_}]")
             offv = o.id if isinstance(o, ast.Name) else None
-        ck.verdict(bool(init) and offv is not None and _t(init[0].env.get(offv, "")) == "0", "C19.b", bs, f"{offv} = 0", "offsets start at 0", "offsets do not start at 0")
+        if not not_understood:
+            ck.verdict(bool(init) and offv is not None and _t(init[0].env.get(offv, "")) == "0", "C19.b", bs, f"{offv} = 0", "offsets start at 0", "offsets do not start at 0")
     # ---- fit: ranks = enumerate(sorted(distinct non-missing values)); schema rebuilt
     floops = [l for l in own_nodes(fit.node) if isinstance(l, ast.For) and isinstance(l.target, ast.Name)]
     okr = False
@@ -261,7 +272,16 @@ def check_b(ck, repo):
                         names = [a.arg for a in lam.args.args]
                         dflt = {a.arg: _t(d) for a, d in zip(lam.args.args[len(lam.args.args) - len(lam.args.defaults):], lam.args.defaults)}
                         body = lam.body
-                        ok = isinstance(body, ast.Call) and len(body.args) == 2 and _t(body.args[0]) == names[0] and len(names) == 2 and dflt.get(names[1]) == col and _t(body.args[1]) == f"{SCH}[2][{names[1]}]"
+                        ok = isinstance(body, ast.Call) and len(body.args) == 2 and not body.keywords and _t(body.args[0]) == names[0] and len(names) == 2 and names[1] in dflt
+                        if ok:
+                            # the rank table the value is looked up in, with the lambda's default written out:
+                            # `lambda v, cv=c: f(v, T[cv])` and `lambda v, vec=T[c]: f(v, vec)` both read T[c]
+                            eff = _t(body.args[1])
+                            if eff == names[1]:
+                                eff = dflt[names[1]]
+                            else:
+                                eff = eff.replace(f"[{names[1]}]", f"[{dflt[names[1]]}]")
+                            ok = eff == f"{SCH}[2][{col}]"
             ck.verdict(ok, "C19.b", tr, "single=True: a copy of X, column c mapped through its own rank table", "single=True encodes a copy of the frame, each fitted column through its own rank table", "single=True writes into the caller's frame, or does not map column c through the ranks of column c")
             continue
         # indicator layout
